@@ -493,4 +493,24 @@ def translate(repo):
     out.append("/-- `Quaternion_::inverse()`: `conj() / length2()` with `operator/(T t)` = `*this * (1 / t)` -/\n"
                "def inverse (F : Fld K) (p : Quat K) : Quat K :=\n  smul F (conj F p) (F.div (F.lit 1) (length2 F p))\n")
     files["Gen/QuatGen.lean"] = (HEADER % ("include/asl/Quaternion.h", "Gen.Q")) + "\n".join(out) + "\nend Gen.Q\n"
+
+    # ---------------- Vec3 (one-line members: `{return Vec3_(…);}` / `{return expr;}`)
+    out = []
+    V = Env(scalars={"x": "a.x", "y": "a.y", "z": "a.z", "r": "r"}, structs={"b": ("b", ("x", "y", "z"))})
+
+    def v3method(header_rx, what, name, doc, params):
+        c = vec_method(v3, header_rx, what, r"Vec3_", 3, V)
+        out.append("/-- %s -/\ndef %s (F : Fld K) %s : V3 K :=\n  V3.mk %s\n" % (doc, name, params, "\n    ".join(c)))
+
+    v3method(r"Vec3_ operator\^\(const Vec3_& b\) const\s*\{", "Vec3_::operator^", "cross", "`Vec3_::operator^` (cross product)", "(a b : V3 K)")
+    v3method(r"Vec3_ operator\+\(const Vec3_& b\) const\s*\{", "Vec3_::operator+", "add", "`Vec3_::operator+`", "(a b : V3 K)")
+    v3method(r"Vec3_ operator-\(const Vec3_& b\) const\s*\{", "Vec3_::operator-", "sub", "`Vec3_::operator-`", "(a b : V3 K)")
+    v3method(r"Vec3_ operator\*\(T r\) const\s*\{", "Vec3_::operator*(T)", "smul", "`Vec3_::operator*(T r)`", "(a : V3 K) (r : K)")
+    b = body_of(v3, r"T operator\*\(const Vec3_& b\) const\s*\{", "Vec3_::operator*(Vec3)")
+    m = must(r"return (.*);", b, "Vec3_::operator*(Vec3)")
+    out.append("/-- `Vec3_::operator*(const Vec3_& b)` (dot product) -/\ndef dot (F : Fld K) (a b : V3 K) : K :=\n  %s\n" % emit(parse_expr(m.group(1)), V))
+    b = body_of(v3, r"T length2\(\) const\s*\{", "Vec3_::length2")
+    m = must(r"return (.*);", b, "Vec3_::length2")
+    out.append("/-- `Vec3_::length2()` -/\ndef length2 (F : Fld K) (a : V3 K) : K :=\n  %s\n" % emit(parse_expr(m.group(1)), V))
+    files["Gen/Vec3Gen.lean"] = (HEADER % ("include/asl/Vec3.h", "Gen.V3")) + "\n".join(out) + "\nend Gen.V3\n"
     return files
